@@ -910,6 +910,9 @@ def run_fmt(case):
             f.write(case["content"])
         exc = make_exc(case)
         rec = exc_record(exc)
+        if rec["str"].startswith("<str failed"):
+            # an artefact of the synthetic object (lark formats line/column with %d in __str__), not a loader question
+            return {"outcome": "skip", "version": case["version"], "inner": rec}
 
         def fake_parse(*a, **k):
             raise exc
@@ -981,7 +984,7 @@ def model_requests(case, obs):
             return []
         return [{"m": "C13.numbered", "lines": obs["raw"]}, {"m": "C13.numbered", "lines": obs["eraw"]}]
     if k in ("err", "fmt"):
-        if obs.get("outcome") in ("timeout", "adapter"):
+        if obs.get("outcome") in ("timeout", "adapter", "skip"):
             return []
         if obs.get("outcome") == "raised" and not obs.get("at_wrapper"):
             return []  # raised outside the modelled try/except (e.g. import resolution): only the oracle speaks
@@ -1117,7 +1120,7 @@ def oracle(case, obs):
         return None
     if k in ("err", "fmt"):
         o = obs["outcome"]
-        if o == "ok":
+        if o in ("ok", "skip"):
             return None
         if o == "timeout":
             return f"loading did not finish within {obs['timeout_s']} s"
